@@ -67,8 +67,25 @@ func htmlSig(s string) string {
 	return b.String()
 }
 
+const bb = "\xfe\xfe"
+
+var sqlByteTemplates = []string{
+	bb, "1" + bb + "or" + bb + "1=1", "1'" + bb + "or" + bb + "'1'='1", "select" + bb + "1", "1" + bb + "union" + bb + "select" + bb + "1", bb + "1 or 1=1", "1 or 1=1" + bb,
+	"@" + bb, "@@" + bb + "a", "`" + bb + "`", "'" + bb + "'", "\"" + bb + "\"", "0x" + bb, "1e" + bb, "1." + bb, "$" + bb + "$", "$a$" + bb + "$a$", "q'" + bb + "a" + bb + "'", "nq'" + bb + "x", "n" + bb + "'a'",
+	"/*" + bb + "*/1", "--" + bb + "\n1", "#" + bb + "\n1", "[" + bb + "]", "\\" + bb, "a" + bb + "b", "1" + bb + "1", "a." + bb, "x'" + bb + "'", "u&" + bb, "1" + bb + ";" + bb + "drop table t",
+	"1 or 1" + bb + "=1", "1 " + bb + "= 1 or", "<" + bb + ">", ":" + bb, "!" + bb, "|" + bb, "&" + bb, "*" + bb, "-" + bb + "-", "/" + bb + "*", "{" + bb + "a}", "user" + bb + "()",
+}
+
+var htmlByteTemplates = []string{
+	bb, "<" + bb, "<" + bb + "script>", "<script" + bb + ">", "<script" + bb + "x>", "<a" + bb + "onclick=x>", "<a " + bb + "onclick=x>", "<a on" + bb + "click=x>", "<a onclick" + bb + "=x>", "<a onclick=" + bb + "x>", "<a onclick=x" + bb + ">",
+	"<a href=" + bb + "javascript:x>", "<a href='" + bb + "javascript:x'>", "<a href=java" + bb + "script:x>", "<a href=&#" + bb + "106;avascript:>", "<a href=&#x6a" + bb + "avascript:>", "<a href=&#106" + bb + "avascript:>",
+	"<!" + bb + "doctype>", "<!--" + bb + "-->", "<!--x-" + bb + "->", "<!--x--" + bb + ">", "<!-- ` --" + bb, "<![CDATA[" + bb + "]]>", "<%" + bb + "%>", "<?" + bb + "import>", "</" + bb + "a>", "</a" + bb + ">", "<a/" + bb + ">", "<a b='c'" + bb + "d=e>",
+	">" + bb + "script>", "> " + bb + "script x>", "x" + bb + "onclick y", "x'" + bb + "onclick'y", bb + "onclick", "onclick" + bb + "x", "href" + bb + "javascript:x", "x' href" + bb + "'javascript:x", "`" + bb + "onerror`", "x>" + bb + "!doctype html>",
+	"x" + bb + " onclick=y", "x'" + bb + " onclick=y", "x\"" + bb + "onclick=y", "x`" + bb + "onclick=y", "'>" + bb + "<script>", bb + "<script>", "<a b=c" + bb + "onclick=d>", "<a b" + bb + "=c onclick=d>",
+}
+
 var sqlDomain = &domain{name: "sql", corpus: gen.CorpusSQL, seps: []string{"", " ", " ", " ", "\t", "\n", "\v", "\f", "\r", "\xa0", "\x00", "/**/", "/*x*/", "+", "("},
-	openers: gen.SQLOpeners, mutDict: gen.SQLExt, scale: sqlScale, sig: sqlSig}
+	openers: gen.SQLOpeners, mutDict: gen.SQLExt, scale: sqlScale, sig: sqlSig, byteTemplates: sqlByteTemplates}
 
 var htmlDomain = &domain{name: "html", corpus: gen.CorpusHTML, seps: []string{"", " ", " ", "\t", "\n", "\f", "\r", "/", "\x00", "\v"},
-	openers: gen.HTMLOpeners, mutDict: gen.HTMLFull, scale: htmlScale, sig: htmlSig}
+	openers: gen.HTMLOpeners, mutDict: gen.HTMLFull, scale: htmlScale, sig: htmlSig, byteTemplates: htmlByteTemplates}
